@@ -476,8 +476,8 @@ Definition stats (hs : list hunk) : nat * nat * nat :=
    length hs).
 
 (* ------------------------------------------------------------------ applying: iter_patched_from_hunks *)
-Inductive aerr := AConflict (line_no : nat)   (* raise PatchConflict(line_no, ...) *)
-                | AExhausted                   (* next(orig_lines) on an exhausted iterator *)
+Inductive aerr := AConflict (line_no : nat)   (* raise PatchConflict(line_no, ...): a mismatching line, or
+                                                  next(orig_lines, None) is None (the original text ended) *)
                 | AParse (e : perr).           (* the hunk generator raised *)
 
 (* the inner for loop over hunk.lines *)
@@ -492,7 +492,7 @@ Fixpoint apply_lines (hl : list hline) (rest : list line) (line_no : nat)
       end
   | Ctx c :: hl' =>
       match rest with
-      | [] => inl AExhausted
+      | [] => inl (AConflict line_no)
       | o :: rest1 =>
           if bytes_eqb o c then
             match apply_lines hl' rest1 (S line_no) with
@@ -503,7 +503,7 @@ Fixpoint apply_lines (hl : list hline) (rest : list line) (line_no : nat)
       end
   | Rem c :: hl' =>
       match rest with
-      | [] => inl AExhausted
+      | [] => inl (AConflict line_no)
       | o :: rest1 =>
           if bytes_eqb o c then apply_lines hl' rest1 (S line_no) else inl (AConflict line_no)
       end
@@ -516,7 +516,7 @@ Fixpoint apply_hunks (hs : list hunk) (rest : list line) (line_no : nat)
   | [] => inr ([], rest, line_no)
   | h :: hs' =>
       let k := orig_pos h - line_no in          (* while line_no < hunk.orig_pos: copy one line *)
-      if Nat.ltb (length rest) k then inl AExhausted else
+      if Nat.ltb (length rest) k then inl (AConflict (line_no + length rest)) else
       match apply_lines (hlines h) (skipn k rest) (line_no + k) with
       | inl e => inl e
       | inr (out, rest1, ln1) =>
@@ -564,7 +564,6 @@ Definition ares_obs (r : aerr + list line) : obs :=
   match r with
   | inr ls => olist OB ls
   | inl (AConflict ln) => OL [OE "PatchConflict"; onat ln]
-  | inl AExhausted => OE "RuntimeError"
   | inl (AParse e) => perr_obs e
   end.
 Definition hline_obs (h : hline) : obs :=
